@@ -1541,3 +1541,111 @@ fn ring(n: usize, chords: usize) -> String {
         dt.as_micros()
     )
 }
+
+// ----------------------------------------------------------------------- glue
+/// The API surface that merely delegates to `T` or to pointer identity
+/// (comparison, hashing, formatting, conversions, Weak raw round trips): not
+/// part of the Coq model. The same table of observations is computed for
+/// `cactusref` and for `std::rc` and compared line by line (C07, C06 identity).
+pub fn glue() -> Vec<String> {
+    use std::borrow::Borrow;
+    use std::collections::hash_map::DefaultHasher;
+    use std::hash::{Hash, Hasher};
+    let mut out: Vec<String> = Vec::new();
+    let vals: [i64; 6] = [i64::MIN, -1, 0, 1, 7, i64::MAX];
+    for &a in vals.iter() {
+        for &b in vals.iter() {
+            let (x, y) = (Rc::new(a), Rc::new(b));
+            out.push(format!(
+                "cmp {a} {b}: {} {} {} {} {} {} {:?} {:?} {} {}",
+                x == y, x != y, x < y, x <= y, x > y, x >= y,
+                x.partial_cmp(&y), x.cmp(&y),
+                *std::cmp::max(x.clone(), y.clone()), *std::cmp::min(x.clone(), y.clone())
+            ));
+        }
+        let x = Rc::new(a);
+        let (mut h1, mut h2) = (DefaultHasher::new(), DefaultHasher::new());
+        x.hash(&mut h1);
+        a.hash(&mut h2);
+        out.push(format!("hash {a}: {}", h1.finish() == h2.finish()));
+        out.push(format!("fmt {a}: [{}] [{:?}] [{:>8}] [{:#?}] [{:08}]", x, x, x, x, x));
+        out.push(format!("ptrfmt {a}: {}", format!("{:p}", x) == format!("{:p}", Rc::as_ptr(&x))));
+        let f: Rc<i64> = Rc::from(a);
+        let fb: Rc<i64> = Rc::from(Box::new(a));
+        out.push(format!("from {a}: {} {} {} {}", *f, *fb, Rc::strong_count(&f), Rc::weak_count(&fb)));
+        let br: &i64 = x.borrow();
+        let ar: &i64 = x.as_ref();
+        out.push(format!("borrow {a}: {} {} {}", *br, *ar, std::ptr::eq(br, ar)));
+    }
+    // floats: partial order with NaN
+    let fl: [f64; 4] = [f64::NAN, -0.0, 0.0, 1.5];
+    for &a in fl.iter() {
+        for &b in fl.iter() {
+            let (x, y) = (Rc::new(a), Rc::new(b));
+            out.push(format!("fcmp {a} {b}: {} {} {} {} {} {} {:?}", x == y, x != y, x < y, x <= y, x > y, x >= y,
+                x.partial_cmp(&y)));
+        }
+    }
+    // PartialEq on a non-Eq type must compare values even for the same allocation
+    let n = Rc::new(f64::NAN);
+    let n2 = n.clone();
+    out.push(format!("nan-same-alloc: {} {}", n == n2, n != n2));
+    let d: Rc<i64> = Default::default();
+    let s: Rc<String> = Default::default();
+    out.push(format!("default: {} [{}] {}", *d, *s, Rc::strong_count(&d)));
+    // identity
+    let x = Rc::new(41i64);
+    let y = x.clone();
+    let z = Rc::new(41i64);
+    out.push(format!("ptr_eq: {} {} {}", Rc::ptr_eq(&x, &y), Rc::ptr_eq(&x, &z),
+        Rc::as_ptr(&x) == Rc::as_ptr(&y)));
+    let w = Rc::downgrade(&x);
+    let w2 = w.clone();
+    let wz = Rc::downgrade(&z);
+    let wn: Weak<i64> = Weak::new();
+    let wn2: Weak<i64> = Weak::default();
+    out.push(format!("weak ptr_eq: {} {} {} {} {}", w.ptr_eq(&w2), w.ptr_eq(&wz), wn.ptr_eq(&wn2), wn.ptr_eq(&w),
+        w.as_ptr() == Rc::as_ptr(&x)));
+    out.push(format!("weak fmt: [{:?}] {} {} {}", w, wn.upgrade().is_none(), wn.strong_count(), wn.weak_count()));
+    // Weak raw round trip keeps the weak count and the target
+    let before = Rc::weak_count(&x);
+    let raw = w2.into_raw();
+    let mid = Rc::weak_count(&x);
+    let back = unsafe { Weak::from_raw(raw) };
+    out.push(format!("weak raw: {} {} {} {} {}", before, mid, Rc::weak_count(&x), raw == Rc::as_ptr(&x),
+        back.upgrade().map(|r| *r).unwrap_or(-1)));
+    drop(back);
+    out.push(format!("weak raw after drop: {} {}", Rc::weak_count(&x), Rc::strong_count(&x)));
+    // the dangling Weak survives a raw round trip
+    let raw = wn.into_raw();
+    let back = unsafe { Weak::from_raw(raw) };
+    out.push(format!("dangling raw: {}", back.upgrade().is_none()));
+    // Rc raw round trip and the count functions on raw pointers
+    let p = Rc::into_raw(x);
+    unsafe {
+        Rc::increment_strong_count(p);
+        let a = Rc::from_raw(p);
+        let b = Rc::from_raw(p);
+        out.push(format!("raw: {} {} {}", Rc::strong_count(&a), Rc::ptr_eq(&a, &b), *a));
+        drop(a);
+        out.push(format!("raw2: {} {}", Rc::strong_count(&b), w.upgrade().is_some()));
+        drop(b);
+    }
+    out.push(format!("raw3: {} {} {}", Rc::strong_count(&y), w.strong_count(), w.weak_count()));
+    // get_mut / make_mut / try_unwrap on plain values
+    let mut m = Rc::new(String::from("a"));
+    out.push(format!("get_mut unique: {}", Rc::get_mut(&mut m).is_some()));
+    let m2 = m.clone();
+    out.push(format!("get_mut shared: {}", Rc::get_mut(&mut m).is_some()));
+    Rc::make_mut(&mut m).push('b');
+    out.push(format!("make_mut: [{}] [{}] {} {}", m, m2, Rc::strong_count(&m), Rc::strong_count(&m2)));
+    let mw = Rc::downgrade(&m);
+    Rc::make_mut(&mut m).push('c');
+    out.push(format!("make_mut weak: [{}] {} {}", m, mw.upgrade().is_none(), Rc::weak_count(&m)));
+    out.push(format!("try_unwrap shared: {}", Rc::try_unwrap(m2.clone()).is_err()));
+    drop(m2.clone());
+    out.push(format!("try_unwrap: {:?}", Rc::try_unwrap(Rc::new(5u8)).ok()));
+    let pinned = Rc::pin(9u32);
+    out.push(format!("pin: {}", *pinned));
+    out
+}
